@@ -236,10 +236,10 @@ Record RestoreSpec (os : pfos) (a : tok) (py : pyctx) (p : pfstate) (py' : pyctx
           end
 }.
 
-Lemma pf_restore_nf os f port py n s :
+Lemma pf_restore_nf rep os f port py n s :
   pf_loaded (k_pf s) = true -> py_loaded py = false ->
   exists ok py' n' p' ev,
-    pf_restore no_faults os f port py n s = (ok, py', n', with_pf s p', ev) /\
+    pf_restore rep no_faults os f port py n s = (ok, py', n', with_pf s p', ev) /\
     RestoreSpec os (pf_anchor f port) py (k_pf s) py' p'.
 Proof.
   intros Hl Hpl. destruct s as [t1 t2 t3 t4 nf p]. destruct p as [ld on refs nx sk mn cl an].
@@ -264,13 +264,15 @@ Proof.
   destruct os; cbn -[is_infix join_lines]; do 2 eexists; reflexivity.
 Qed.
 
-Lemma pf_restore_unloaded os f port py n s :
+Lemma pf_restore_unloaded rep os f port py n s :
   pf_loaded (k_pf s) = false ->
-  exists n' ev, pf_restore no_faults os f port py n s = (false, py, n', s, ev).
+  exists ok py' n' ev, pf_restore rep no_faults os f port py n s = (ok, py', n', s, ev).
 Proof.
   intro Hl. destruct s as [t1 t2 t3 t4 nf p]. destruct p as [ld on refs nx sk mn cl an].
   cbn [k_pf pf_loaded] in Hl. subst ld. unfold pf_restore, pf_do, issue, no_faults.
-  cbn. do 2 eexists; reflexivity.
+  destruct rep; [|cbn; do 4 eexists; reflexivity].
+  destruct os; [destruct (Z.eqb (py_started py) 1) | destruct (Z.eqb (py_started py) 1) | destruct (rev (py_tokens py))];
+    cbn; do 4 eexists; reflexivity.
 Qed.
 
 (* ---- anchors and tokens ---- *)
@@ -389,12 +391,12 @@ Proof.
   (* phase 3 *)
   assert (P3 : exists ok7 py3 n3 p3 ev3,
              (if fc_on (c_v6 c)
-              then let '(ok, py, n, s, ev) := pf_restore no_faults os V6 (fc_port (fcfg c V6)) py2 n2 (with_pf s0 p2) in
+              then let '(ok, py, n, s, ev) := pf_restore (c_repaired c) no_faults os V6 (fc_port (fcfg c V6)) py2 n2 (with_pf s0 p2) in
                    (ok, py, n, s, EMark (MRestore V6) :: ev)
               else (true, py2, n2, with_pf s0 p2, [])) = (ok7, py3, n3, with_pf s0 p3, ev3) /\
              (if fc_on (c_v6 c) then RestoreSpec os (pf_anchor V6 (fc_port (c_v6 c))) py2 p2 py3 p3 else py3 = py2 /\ p3 = p2)).
   { destruct (fc_on (c_v6 c)) eqn:On.
-    - destruct (pf_restore_nf os V6 (fc_port (fcfg c V6)) py2 n2 (with_pf s0 p2) Hl2 Hpl2) as (ok & py3 & n3 & p3 & ev3 & E & S).
+    - destruct (pf_restore_nf (c_repaired c) os V6 (fc_port (fcfg c V6)) py2 n2 (with_pf s0 p2) Hl2 Hpl2) as (ok & py3 & n3 & p3 & ev3 & E & S).
       rewrite E. do 5 eexists. split; [reflexivity | exact S].
     - exists true, py2, n2, p2, []. split; [reflexivity | split; reflexivity]. }
   destruct P3 as (ok7 & py3 & n3 & p3 & ev3 & E3 & S3). rewrite E3.
@@ -402,12 +404,12 @@ Proof.
   assert (Hpl3 : py_loaded py3 = false) by (destruct (fc_on (c_v6 c)); [exact (rs_pyl _ _ _ _ _ _ S3) | destruct S3 as [-> _]; exact Hpl2]).
   assert (P4 : exists ok8 py4 n4 p4 ev4,
              (if fc_on (c_v4 c)
-              then let '(ok, py, n, s, ev) := pf_restore no_faults os V4 (fc_port (fcfg c V4)) py3 n3 (with_pf s0 p3) in
+              then let '(ok, py, n, s, ev) := pf_restore (c_repaired c) no_faults os V4 (fc_port (fcfg c V4)) py3 n3 (with_pf s0 p3) in
                    (ok, py, n, s, EMark (MRestore V4) :: ev)
               else (true, py3, n3, with_pf s0 p3, [])) = (ok8, py4, n4, with_pf s0 p4, ev4) /\
              (if fc_on (c_v4 c) then RestoreSpec os (pf_anchor V4 (fc_port (c_v4 c))) py3 p3 py4 p4 else py4 = py3 /\ p4 = p3)).
   { destruct (fc_on (c_v4 c)) eqn:On.
-    - destruct (pf_restore_nf os V4 (fc_port (fcfg c V4)) py3 n3 (with_pf s0 p3) Hl3 Hpl3) as (ok & py4 & n4 & p4 & ev4 & E & S).
+    - destruct (pf_restore_nf (c_repaired c) os V4 (fc_port (fcfg c V4)) py3 n3 (with_pf s0 p3) Hl3 Hpl3) as (ok & py4 & n4 & p4 & ev4 & E & S).
       rewrite E. do 5 eexists. split; [reflexivity | exact S].
     - exists true, py3, n3, p3, []. split; [reflexivity | split; reflexivity]. }
   destruct P4 as (ok8 & py4 & n4 & p4 & ev4 & E4 & S4). rewrite E4.
@@ -570,9 +572,10 @@ Proof.
             | |- context [pf_setup no_faults os ?f ?p ?b ?py ?n s0] =>
                 let n' := fresh "n" in let ev := fresh "ev" in let E := fresh "E" in
                 destruct (pf_setup_unloaded os f p b py n s0 Hl) as (n' & ev & E); rewrite E
-            | |- context [pf_restore no_faults os ?f ?p ?py ?n s0] =>
+            | |- context [pf_restore ?rp no_faults os ?f ?p ?py ?n s0] =>
                 let n' := fresh "n" in let ev := fresh "ev" in let E := fresh "E" in
-                destruct (pf_restore_unloaded os f p py n s0 Hl) as (n' & ev & E); rewrite E
+                let ok' := fresh "ok" in let py' := fresh "py" in
+                destruct (pf_restore_unloaded rp os f p py n s0 Hl) as (ok' & py' & n' & ev & E); rewrite E
             end; cbn [andb]);
     try (destruct (wait_loop _)); reflexivity.
 Qed.
